@@ -281,6 +281,11 @@ def build_gt(cfg):
             if k and rs.rand() < 0.5:
                 cols[t, nloc - k:] = -1
                 data[t, :, nloc - k:] = 0
+                if nloc - k >= 3 and rs.rand() < 0.4:
+                    # an unused column BEFORE real channels (not only trailing padding)
+                    j = rs.randint(1, nloc - k - 1) if nloc - k - 1 > 1 else 1
+                    cols[t, j] = -1
+                    data[t, :, j] = 0
             elif nloc >= 3 and rs.rand() < 0.4:
                 j = rs.randint(1, nloc)
                 data[t, :, j] = 0  # signal-free column (kept channel id)
